@@ -477,6 +477,22 @@ def shard(job) -> dict:
                         acc.violation({"part": "header", "fail": kind}, f"{msg} case={c}", c)
         if pts:
             acc.sample({"part": "header", "example": list(pts[0])}, cap=1)
+    elif job[0] == "namesweep":
+        # the options row passes through every length (the second byte of a non-delimited stream
+        # is that length): name byte lengths 0…300 × both framings × small and default tables
+        for api in ("generic", "rdflib"):
+            for preset in ((128, 32, 32), (4000, 150, 32), (8, 0, 0)):
+                for n in range(job[1], job[2]):
+                    for dl in (True, False):
+                        c = {"part": "header", "api": api, "cls": "triple", "logical": 1,
+                             "preset": list(preset), "generalized": False, "rdf_star": False,
+                             "ns": False, "delimited": dl, "stream_name": "n" * n,
+                             "req_version": None, "flow": "inferred"}
+                        acc.evals += 1
+                        acc.nontrivial += 1
+                        for kind, msg in run_header(c):
+                            acc.violation({"part": "header", "fail": kind, "namesweep": True},
+                                          f"{msg} case={c}", c)
     elif job[0] == "filehelpers":
         for c in filehelper_cases():
             acc.evals += 1
@@ -544,6 +560,7 @@ def run(ctx) -> None:
         for lo, hi in pool.split_range(n, 24):
             jobs.append(("header", api, lo, hi, names))
     jobs.append(("derived",))
+    jobs += [("namesweep", lo, lo + 43) for lo in range(0, 301, 43)]
     jobs.append(("flowtype",))
     jobs.append(("nobindings",))
     jobs.append(("filehelpers",))
